@@ -28,6 +28,9 @@ func c03Ops(z []int64) ([]bufOp, bool) {
 var c03Expect = map[string]string{}
 
 func c03Run(c *Case) (out string, fails []Fail) {
+	if c.Kind == 1 {
+		return c03StartRun(c) // restart on a backlog with immediate input (c03_startup.go)
+	}
 	ops, ok := c03Ops(c.Z)
 	if !ok || c.Kind != 0 {
 		return "badcase", nil
@@ -268,20 +271,27 @@ func (b *c03Builder) shutdown(confirmPct int) {
 	if w.cons == 0 && len(w.hold) > 0 {
 		return // cannot report without a consumer registration
 	}
+	// (every loop ends when an operation is not applicable: on a broken implementation the world may refuse it for ever)
 	for len(w.hold) > 0 {
 		i := int64(b.r.Intn(len(w.hold)))
 		if b.r.Intn(100) < confirmPct {
-			b.try(bufOp{opConsumed, i, 0, 0})
+			if !b.try(bufOp{opConsumed, i, 0, 0}) {
+				return
+			}
 		} else {
 			ws := int64(0)
 			if b.r.Chance(1, 10) {
 				ws = int64(1 + b.r.Intn(2))
 			}
-			b.try(bufOp{opLeftover, i, 0, ws})
+			if !b.try(bufOp{opLeftover, i, 0, ws}) {
+				return
+			}
 		}
 	}
 	for w.cons > 0 {
-		b.try(bufOp{opFinish, 0, 0, 0})
+		if !b.try(bufOp{opFinish, 0, 0, 0}) {
+			return
+		}
 	}
 }
 
@@ -353,6 +363,8 @@ func (b *c03Builder) emit(class string) {
 
 func c03Gen(g *Gen) {
 	r := g.R
+	// ---- restart on a backlog, input arriving the moment Start() has returned (kind 1) ----
+	c03StartGen(g)
 	// ---- directed scenarios ----
 	// (1) hand-back at shutdown under a full quota / without directory / with a failing write
 	for _, quota := range []int64{0, 8, 10, 19, 20, 100} {
